@@ -1,7 +1,7 @@
 (* C06 - a read depends only on bytes and arguments, never on earlier reads or callers; results share no
    mutable state.  Only statements, closed by [exact], each followed by Print Assumptions. *)
 From Coq Require Import ZArith NArith List Bool.
-Require Import Tree Graph C06_Graph C06_GraphRun C06_GraphProofs.
+Require Import Tree Graph GraphEdit C06_Graph C06_GraphRun C06_GraphProofs.
 Require Import ListN Result Bytes Prog Codec PoseRead PoseReadLemmas StreamLemmas C06_Heap C06_HeapProofs CodecGenTie.
 Import ListNotations.
 Open Scope N_scope.
@@ -93,6 +93,17 @@ Theorem C06_graph_edit_is_local :
     memo_view_g s' = memo_view_g s /\ memo_cells s' = memo_cells s /\ cells_of s' k = cells_of s k.
 Proof. exact edit_is_local. Qed.
 Print Assumptions C06_graph_edit_is_local.
+(* so do the structural edits - a newly built object (PoseHeaderDimensions(..), a new mask or coordinate array, a new list)
+   assigned to an attribute, or the last element popped from a list such as header.components; *)
+Theorem C06_graph_structural_edit_is_local :
+  forall legacy s o, GInv s ->
+    match o with GAssign _ _ _ _ | GPop _ _ => True | _ => False end ->
+    let k := match o with GAssign k _ _ _ | GPop k _ => k | _ => 0%nat end in
+    let s' := fst (step_g legacy s o) in
+    (forall j, j <> k -> pose_at s' j = pose_at s j /\ cells_of s' j = cells_of s j) /\
+    memo_view_g s' = memo_view_g s /\ memo_cells s' = memo_cells s.
+Proof. exact structural_edit_is_local. Qed.
+Print Assumptions C06_graph_structural_edit_is_local.
 (* a read leaves every pose handed out before as it was; *)
 Theorem C06_graph_read_keeps_others :
   forall legacy s buffer a, GInv s -> forall j, (j < length (ghanded s))%nat ->
@@ -131,6 +142,16 @@ Theorem C06_graph_example :
   NoDup (memo_cells s ++ cells_of s 0 ++ cells_of s 1 ++ cells_of s 2).
 Proof. exact ex_ghistory_runs. Qed.
 Print Assumptions C06_graph_example.
+Theorem C06_graph_example_structural :
+  let s := run_g no_legacy ginit ex_ghistory2 in
+  length (ghanded s) = 3%nat /\
+  option_map (fun p => (h_dims (p_header p), length (h_comps (p_header p)))) (pose_at s 0) = Some ((9, 9, 9), 1%nat) /\
+  option_map (fun p => (h_dims (p_header p), length (h_comps (p_header p)))) (pose_at s 1) = Some ((9, 9, 9), 1%nat) /\
+  pose_at s 2 = match fst (read_bytes no_legacy None ex_file no_args) with Ok p => Some p | Err _ => None end /\
+  option_map (fun p => length (h_comps (p_header p))) (pose_at s 2) = Some 2%nat /\
+  NoDup (memo_cells s ++ cells_of s 0 ++ cells_of s 1 ++ cells_of s 2).
+Proof. exact ex_ghistory2_runs. Qed.
+Print Assumptions C06_graph_example_structural.
 
 (* streams (partial: the windowed clause covers reads whose bytes result is Ok and v0.2 bodies) *)
 Theorem C06_stream_windowed_partial :
